@@ -277,7 +277,7 @@ def boundary_params(rng, P):
     w = np.array([1.0, 1.0])
     w[int(rng.integers(2))] = 0.0
     P["roleq"]["weights"], P["oleq"]["weights"] = w.copy(), w[::-1].copy()
-    P["order"] = int(rng.choice([0, 1]))
+    P["order"] = int(rng.choice([0, 1, 20, 21, 30, 66, 100, 150]))      # (any non-negative truncation order is a valid request: the terms x^k/k! only get smaller)
     return P
 
 
